@@ -9,20 +9,20 @@ import (
 )
 
 var (
-	kindPool     = []string{"user", "org", "device"}
-	clauseKinds  = []string{"", "", "user", "org", "device", "other"}
-	keyPool      = []string{"a", "b", "c", "u1", "u2", "k/1", "ключ", "key.with.dots", strings.Repeat("L", 150),
+	kindPool    = []string{"user", "org", "device"}
+	clauseKinds = []string{"", "", "user", "org", "device", "other"}
+	keyPool     = []string{"a", "b", "c", "u1", "u2", "k/1", "ключ", "key.with.dots", strings.Repeat("L", 150),
 		"ctl\x01\x1b\x7f", "q\"uo\\te\n\t", "tag\U000E0001\u2028", "nul\x00mid"}
-	attrNames    = []string{"a", "b", "email", "n", "s", "arr", "obj", "/a~b", "a/b", "d", "v"}
-	segKeyPool   = []string{"s0", "s1", "s2", "s3", "s4", "s5"}
-	flagKeyPool  = []string{"f0", "f1", "f2", "f3", "f4", "f5", "f6"}
-	saltPool     = []string{"", "salt", "s2", strings.Repeat("S", 120)}
-	dateStrs     = []string{"2020-01-01T00:00:00Z", "2020-01-01T00:00:00.5Z", "2019-12-31T23:00:00-01:00", "1970-01-01T00:00:00Z", "0001-01-01T00:00:00Z", "9999-12-31T23:59:59.999999999Z", "2020-02-31T00:00:00Z", "2020-01-01t00:00:00z", "2020-01-01T0:00:00Z", "2020-01-01", "not a date", "2020-01-01T00:00:00+99:59",
+	attrNames   = []string{"a", "b", "email", "n", "s", "arr", "obj", "/a~b", "a/b", "d", "v"}
+	segKeyPool  = []string{"s0", "s1", "s2", "s3", "s4", "s5"}
+	flagKeyPool = []string{"f0", "f1", "f2", "f3", "f4", "f5", "f6"}
+	saltPool    = []string{"", "salt", "s2", strings.Repeat("S", 120)}
+	dateStrs    = []string{"2020-01-01T00:00:00Z", "2020-01-01T00:00:00.5Z", "2019-12-31T23:00:00-01:00", "1970-01-01T00:00:00Z", "0001-01-01T00:00:00Z", "9999-12-31T23:59:59.999999999Z", "2020-02-31T00:00:00Z", "2020-01-01t00:00:00z", "2020-01-01T0:00:00Z", "2020-01-01", "not a date", "2020-01-01T00:00:00+99:59",
 		" 2020-01-01T00:00:00Z", "2020-01-01T00:00:00+00:00\n", "\t2019-12-31T23:00:00-01:00 ", "2020-01-01T00:00:00Z "}
-	dateNums     = []float64{0, 1577836800000, 1577836800500, 1577833200000, -62135596800000, 253402300799000, 253402300799999, 1.5, -1, 9.3e18}
-	verStrs      = []string{"1.0.0", "1.0", "1", "2.0.0", "1.0.0-rc.1", "1.0.0-rc.2", "1.0.0-rc.10", "1.0.0-alpha", "1.0.0+build", "1.2.3-a.b+c.d", "01.0.0", "1.0.0-", "1..0", "v1.0.0", "1.0.0-rc..1", "10.0.0", "1.10.0", "1.2.3.4", " 1.0.0", "1.0.0 ", "1.0.0\n", "+1.0.0"}
-	regexStrs    = []string{"^a", "b$", "a.*c", ".", "", "(", "[a-", "^(a|b)+$", "\\d+", "ключ", "k/1"}
-	plainStrs    = []string{"", "a", "b", "abc", "ab", "bc", "1", "1.0", "true", "user", "org", "multi", "kind", "ключ", "x y",
+	dateNums  = []float64{0, 1577836800000, 1577836800500, 1577833200000, -62135596800000, 253402300799000, 253402300799999, 1.5, -1, 9.3e18}
+	verStrs   = []string{"1.0.0", "1.0", "1", "2.0.0", "1.0.0-rc.1", "1.0.0-rc.2", "1.0.0-rc.10", "1.0.0-alpha", "1.0.0+build", "1.2.3-a.b+c.d", "01.0.0", "1.0.0-", "1..0", "v1.0.0", "1.0.0-rc..1", "10.0.0", "1.10.0", "1.2.3.4", " 1.0.0", "1.0.0 ", "1.0.0\n", "+1.0.0"}
+	regexStrs = []string{"^a", "b$", "a.*c", ".", "", "(", "[a-", "^(a|b)+$", "\\d+", "ключ", "k/1"}
+	plainStrs = []string{"", "a", "b", "abc", "ab", "bc", "1", "1.0", "true", "user", "org", "multi", "kind", "ключ", "x y",
 		"ctl\x01\x1b\x7f", "q\"uo\\te\n", "tag\U000E0001"}
 	numPool      = []float64{0, 1, -1, 2, 2.5, 0.1, 1e10, 9007199254740992, -9007199254740992, 9223372036854775808, -9223372036854775808, 99, 100, 1e-7, 3}
 	operatorPool = []string{"in", "endsWith", "startsWith", "matches", "contains", "lessThan", "lessThanOrEqual", "greaterThan", "greaterThanOrEqual", "before", "after", "semVerEqual", "semVerLessThan", "semVerGreaterThan"}
